@@ -90,8 +90,10 @@ void RetireList<T, D>::retire(T* data) {
   auto head = _head.load(::std::memory_order_acquire);
   auto timestamp = get_current_timestamp();
   auto new_head = make_head(node, timestamp);
+  BABYLON_VERIF_POINT("vec:retire_loaded");
   if (expire(head, timestamp)) {
     node->next = nullptr;
+    BABYLON_VERIF_POINT("vec:retire_expired");
     if (_head.compare_exchange_strong(head, new_head,
                                       ::std::memory_order_acq_rel)) {
       delete_list(head);
@@ -109,6 +111,7 @@ void RetireList<T, D>::gc() noexcept {
   auto head = _head.load(::std::memory_order_acquire);
   auto timestamp = get_current_timestamp();
   if (expire(head, timestamp)) {
+    BABYLON_VERIF_POINT("vec:gc_expired");
     if (_head.compare_exchange_strong(head, 0, ::std::memory_order_acq_rel)) {
       delete_list(head);
     }
@@ -660,12 +663,15 @@ ConcurrentVector<T, BLOCK_SIZE>::get_qualified_block_table_slow(
     for (auto i = block_num; i < expect_block_num; ++i) {
       new_block_table->blocks[i] = create_block();
     }
+    BABYLON_VERIF_POINT("vec:before_cas");
     if (_block_table.compare_exchange_strong(block_table, new_block_table,
                                              ::std::memory_order_acq_rel,
                                              ::std::memory_order_acquire)) {
+      BABYLON_VERIF_POINT("vec:cas_won");
       _retire_list.retire(block_table);
       return new_block_table;
     }
+    BABYLON_VERIF_POINT("vec:cas_lost");
     for (auto i = block_num; i < expect_block_num; ++i) {
       delete_block(new_block_table->blocks[i]);
     }
